@@ -546,9 +546,16 @@ def classification(ctx):
     ctx.correspondence("uploaded-share-vs-genuine-model")
     ctx.correspondence("single-field-corruption-vs-model")
     nfiles = ctx.n(5, 40)
-    per_file = ctx.n(24, 60)
     jobs, infos = [], []
     for fi in range(nfiles):
+        classification_file(ctx, fi, jobs, infos)
+    classification_eval(ctx, jobs, infos)
+
+
+def classification_file(ctx, fi, jobs, infos):
+    from core import grid as G
+    per_file = ctx.n(24, 60)
+    if True:
         terms, info = [], []
         r = ctx.rng("classify", fi)
         k = r.choice([1, 1, 1, 2, 3])
@@ -623,6 +630,9 @@ def classification(ctx):
             set_payload(g, target, raws[target.shnum], gen.payloads[target.shnum])
         jobs.append((pre, terms))
         infos.append(info)
+
+
+def classification_eval(ctx, jobs, infos):
     for info, terms, bad in zip(infos, [j[1] for j in jobs], coq_check_parallel(ctx, jobs, "c02cls")):
         for ix in bad:
             corr, case, obs = info[ix]
@@ -725,91 +735,108 @@ def changing_answers(r, nservers):
     return plan
 
 
-def adversarial(ctx):
+def adversarial_case(ctx, i):
     from core import grid as G
-    n_cases = ctx.n(220, 3000)
-    for i in range(n_cases):
-        r = ctx.rng("adv", i)
-        k = r.choice([1, 1, 2, 2, 3, 3, 4, 5, 7, 10])
-        n = r.choice([x for x in [k, k + 1, k + 2, 2 * k, 10] if k <= x <= 10])
-        mss = r.choice([16, 21, 32, 40, 64, 100, 160])
-        size = r.choice([56, 57, mss - 1, mss, mss + 1, 2 * mss, 2 * mss + 1, 3 * mss - 1, 4 * mss, 5 * mss + 3, 200, 400])
-        size = max(56, min(size, 9 * mss, 420))
-        data = bytes(r.getrandbits(8) for _ in range(size))
-        nservers = r.choice([n, n, max(1, n // 2), n + 2])
-        seed = r.getrandbits(30)
-        scenario = r.choice(["flips", "flips", "fields", "fields", "truncate", "renumber", "other-file", "other-encoding", "changing-answers",
-                             "changing-answers", "mixed"])
-        case = {"i": i, "k": k, "n": n, "size": size, "max_segment_size": mss, "servers": nservers, "seed": seed, "scenario": scenario, "data": data.hex()}
-        with G.Grid(num_servers=nservers, k=k, n=n, happy=1, max_segment_size=mss, seed=seed, timeout=30) as g:
-            cap = g.run(g.upload(data, convergence=b"c02"))
-            shares = g.find_shares(cap)
-            raws = {(s.server, s.shnum): g.read_share(s) for s in shares}
-            desc = None
-            if scenario in ("flips", "mixed"):
-                desc = damage_random_flips(r, g, shares, raws)
-            if scenario == "truncate":
-                desc = damage_truncate(r, g, shares, raws)
-            if scenario == "renumber":
-                desc = damage_renumber(r, g, shares, raws)
-            if scenario == "fields":
-                pay = {s.shnum: split_container(raws[(s.server, s.shnum)])[1] for s in shares}
-                gen = Genuine(cap, pay)
-                desc = damage_field(r, g, shares, raws, gen)
-            if scenario == "other-file":
-                # shares of another file (same parameters, same length) dropped over some of this file's shares
-                other = bytes(r.getrandbits(8) for _ in range(size))
-                cap2 = g.run(g.upload(other, convergence=b"c02"))
-                sh2 = {(s.server, s.shnum): g.read_share(s) for s in g.find_shares(cap2)}
-                hit = r.sample(shares, r.randrange(1, len(shares) + 1))
-                d2 = []
-                for s in hit:
-                    src = sh2.get((s.server, s.shnum)) or r.choice(list(sh2.values()))
-                    g.write_share(s, src)
-                    d2.append(s.shnum)
-                desc = ("other-file", d2)
-            if scenario == "other-encoding":
-                # the same plaintext under the same key with another k/N or segment size: same storage index
-                key = bytes(r.getrandbits(8) for _ in range(16))
-                g.delete_shares(cap)
-                ur = g.run(g.upload_results(FixedKeyData(data, key)))
-                cap = ur.get_uri()
-                mine = {(s.server, s.shnum): g.read_share(s) for s in g.find_shares(cap)}
-                g.delete_shares(cap)
-                k2 = r.choice([k, max(1, k - 1), min(n, k + 1)])
-                mss2 = r.choice([mss, mss + k2, 2 * mss])
-                g.set_encoding(k=k2, n=n, happy=1, max_segment_size=mss2)
-                ur2 = g.run(g.upload_results(FixedKeyData(data, key)))
-                theirs = g.find_shares(ur2.get_uri())
-                # put some of the first encoding's shares back next to / over the second encoding's
-                back = r.sample(sorted(mine), r.randrange(1, len(mine) + 1))
-                import os
-                for (srv, shnum) in back:
-                    like = [s for s in theirs if s.server == srv]
-                    base = os.path.dirname(like[0].path) if like else os.path.dirname(theirs[0].path)
-                    with open(os.path.join(base, "%d" % shnum), "wb") as f:
-                        f.write(mine[(srv, shnum)])
-                desc = ("other-encoding", {"k2": k2, "mss2": mss2, "first_encoding_shares": sorted(s for _, s in back), "same_cap": cap == ur2.get_uri()})
-                case["second_cap_differs"] = cap != ur2.get_uri()
-            if scenario in ("changing-answers", "mixed"):
-                plan = changing_answers(r, nservers)
-                g.set_faults(plan)
-                desc = (scenario, [desc, plan]) if desc else ("changing-answers", plan)
-            case["damage"] = desc
-            node = fresh_node(g, cap)
-            reads = [(0, None)] if r.random() < 0.4 else [random_ranges(r, size, mss)]
-            if r.random() < 0.4:
-                reads.append(random_ranges(r, size, mss))      # a second read on the same node (cached hash trees, new blocks)
-            outcomes = []
-            for (off, ln) in reads:
-                status, err, chunks = read_through(g, node, off, ln, timeout=1.5)
-                outcomes.append(err or status)
-                judge(ctx, data, off, ln, status, err, chunks, dict(case, read=[off, ln]), scenario)
-            ctx.case((k, n, size, mss, repr(desc), tuple(reads)), kind="adversarial:%s:%s" % (scenario, "ok" if outcomes[-1] == "ok" else "refused"))
-            if i < 3:
-                ctx.sample({"k": k, "n": n, "size": size, "scenario": scenario, "reads": reads, "outcomes": outcomes})
+    r = ctx.rng("adv", i)
+    k = r.choice([1, 1, 2, 2, 3, 3, 4, 5, 7, 10])
+    n = r.choice([x for x in [k, k + 1, k + 2, 2 * k, 10] if k <= x <= 10])
+    mss = r.choice([16, 21, 32, 40, 64, 100, 160])
+    size = r.choice([56, 57, mss - 1, mss, mss + 1, 2 * mss, 2 * mss + 1, 3 * mss - 1, 4 * mss, 5 * mss + 3, 200, 400])
+    size = max(56, min(size, 9 * mss, 420))
+    data = bytes(r.getrandbits(8) for _ in range(size))
+    nservers = r.choice([n, n, max(1, n // 2), n + 2])
+    seed = r.getrandbits(30)
+    scenario = r.choice(["flips", "flips", "fields", "fields", "truncate", "renumber", "other-file", "other-encoding", "changing-answers",
+                         "changing-answers", "mixed"])
+    case = {"i": i, "k": k, "n": n, "size": size, "max_segment_size": mss, "servers": nservers, "seed": seed, "scenario": scenario, "data": data.hex()}
+    with G.Grid(num_servers=nservers, k=k, n=n, happy=1, max_segment_size=mss, seed=seed, timeout=30) as g:
+        cap = g.run(g.upload(data, convergence=b"c02"))
+        shares = g.find_shares(cap)
+        raws = {(s.server, s.shnum): g.read_share(s) for s in shares}
+        desc = None
+        if scenario in ("flips", "mixed"):
+            desc = damage_random_flips(r, g, shares, raws)
+        if scenario == "truncate":
+            desc = damage_truncate(r, g, shares, raws)
+        if scenario == "renumber":
+            desc = damage_renumber(r, g, shares, raws)
+        if scenario == "fields":
+            pay = {s.shnum: split_container(raws[(s.server, s.shnum)])[1] for s in shares}
+            gen = Genuine(cap, pay)
+            desc = damage_field(r, g, shares, raws, gen)
+        if scenario == "other-file":
+            # shares of another file (same parameters, same length) dropped over some of this file's shares
+            other = bytes(r.getrandbits(8) for _ in range(size))
+            cap2 = g.run(g.upload(other, convergence=b"c02"))
+            sh2 = {(s.server, s.shnum): g.read_share(s) for s in g.find_shares(cap2)}
+            hit = r.sample(shares, r.randrange(1, len(shares) + 1))
+            d2 = []
+            for s in hit:
+                src = sh2.get((s.server, s.shnum)) or r.choice(list(sh2.values()))
+                g.write_share(s, src)
+                d2.append(s.shnum)
+            desc = ("other-file", d2)
+        if scenario == "other-encoding":
+            # the same plaintext under the same key with another k/N or segment size: same storage index
+            key = bytes(r.getrandbits(8) for _ in range(16))
+            g.delete_shares(cap)
+            ur = g.run(g.upload_results(FixedKeyData(data, key)))
+            cap = ur.get_uri()
+            mine = {(s.server, s.shnum): g.read_share(s) for s in g.find_shares(cap)}
+            g.delete_shares(cap)
+            k2 = r.choice([k, max(1, k - 1), min(n, k + 1)])
+            mss2 = r.choice([mss, mss + k2, 2 * mss])
+            g.set_encoding(k=k2, n=n, happy=1, max_segment_size=mss2)
+            ur2 = g.run(g.upload_results(FixedKeyData(data, key)))
+            theirs = g.find_shares(ur2.get_uri())
+            # put some of the first encoding's shares back next to / over the second encoding's
+            back = r.sample(sorted(mine), r.randrange(1, len(mine) + 1))
+            import os
+            for (srv, shnum) in back:
+                like = [s for s in theirs if s.server == srv]
+                base = os.path.dirname(like[0].path) if like else os.path.dirname(theirs[0].path)
+                with open(os.path.join(base, "%d" % shnum), "wb") as f:
+                    f.write(mine[(srv, shnum)])
+            desc = ("other-encoding", {"k2": k2, "mss2": mss2, "first_encoding_shares": sorted(s for _, s in back), "same_cap": cap == ur2.get_uri()})
+            case["second_cap_differs"] = cap != ur2.get_uri()
+        if scenario in ("changing-answers", "mixed"):
+            plan = changing_answers(r, nservers)
+            g.set_faults(plan)
+            desc = (scenario, [desc, plan]) if desc else ("changing-answers", plan)
+        case["damage"] = desc
+        node = fresh_node(g, cap)
+        reads = [(0, None)] if r.random() < 0.4 else [random_ranges(r, size, mss)]
+        if r.random() < 0.4:
+            reads.append(random_ranges(r, size, mss))      # a second read on the same node (cached hash trees, new blocks)
+        outcomes = []
+        for (off, ln) in reads:
+            status, err, chunks = read_through(g, node, off, ln, timeout=1.5)
+            outcomes.append(err or status)
+            judge(ctx, data, off, ln, status, err, chunks, dict(case, read=[off, ln]), scenario)
+        ctx.case((k, n, size, mss, repr(desc), tuple(reads)), kind="adversarial:%s:%s" % (scenario, "ok" if outcomes[-1] == "ok" else "refused"))
+        if i < 3:
+            ctx.sample({"k": k, "n": n, "size": size, "scenario": scenario, "reads": reads, "outcomes": outcomes})
+    return {"reads": reads, "outcomes": outcomes}
+
+
+def adversarial(ctx):
+    for i in range(ctx.n(220, 3000)):
+        adversarial_case(ctx, i)
 
 
 def run(ctx):
     classification(ctx)
     adversarial(ctx)
+
+
+def replay(ctx, record):
+    """Re-run the single recorded case (its random choices derive from (seed, property, case index))."""
+    case = record.get("case") or {}
+    if "scenario" in case and "i" in case:
+        return adversarial_case(ctx, case["i"])
+    if "file" in case:
+        jobs, infos = [], []
+        classification_file(ctx, case["file"], jobs, infos)
+        classification_eval(ctx, jobs, infos)
+        return {"file": case["file"], "compared": sum(len(t) for _p, t in jobs)}
+    return {"note": "record names no case index"}
